@@ -430,3 +430,49 @@ func VerifC15_Inbound() {
 	zz.Assert(len(rcv.errs) == 1 && rcv.errs[0] == sc.endErr, "the decoding error is reported exactly once")
 	zz.Reach("decode error")
 }
+
+// VerifC15_InboundMalformed: handleNewStream with the REAL message decoder front end (FromNet's
+// malformed-message check) on top of an arbitrary schema-level decode result: an error, or a
+// message struct whose request/response flag may contradict which body is present, or that has no
+// body at all. A message is handed to a handler only if its announced body is present (and then to
+// exactly the matching handler with the remote peer); anything else is a malformed stream: reset,
+// reported once, no handler, and no crash (a nil body must never reach a handler).
+//
+//verif:opts fuel=20
+func VerifC15_InboundMalformed() {
+	log := &verifLog{}
+	remote := peer.ID(zz.String("remote"))
+	st := verifNewStream(log, datatransfer.ProtocolDataTransfer1_2, remote)
+	st.reliable = true
+	h := &verifHost{id: peer.ID(zz.String("self"))}
+	impl := verifNetwork(h, 1, []protocol.ID{datatransfer.ProtocolDataTransfer1_2})
+	rcv := &verifReceiver{}
+	impl.receiver = rcv
+	message1_1.VerifStubDecode(true)
+	defer message1_1.VerifStubDecode(false)
+	message1_1.VerifDecodeBudget = 2 // at most 2 successful decodes, then the stub reports an error (end of stream)
+
+	impl.handleNewStream(st)
+	zz.Settle()
+
+	for _, c := range rcv.calls {
+		zz.Assert(c.p == remote, "the handler receives the authenticated remote peer")
+		switch c.kind {
+		case verifKindRequest, verifKindRestart:
+			rq, ok := c.msg.(*message1_1.TransferRequest1_1)
+			zz.Assert(ok && rq != nil, "a request handler never receives a missing body")
+			zz.Assert((c.kind == verifKindRestart) == rq.IsRestartExistingChannelRequest(), "handler matches the kind")
+			zz.Reach("well-formed request dispatched")
+		case verifKindResponse:
+			rs, ok := c.msg.(*message1_1.TransferResponse1_1)
+			zz.Assert(ok && rs != nil, "a response handler never receives a missing body")
+			zz.Reach("well-formed response dispatched")
+		}
+	}
+	zz.Assert(log.count("close") == 1, "the stream is closed")
+	zz.Assert(len(rcv.errs) == 1 && log.count("reset") == 1, "the stream ends with exactly one reported error and one reset")
+	zz.Assert(len(rcv.calls) <= 2, "no message is dispatched twice")
+	if len(rcv.calls) == 0 {
+		zz.Reach("malformed first message: no handler")
+	}
+}
